@@ -11,12 +11,12 @@ PROP = 'C11'
 MODEL_OPS = 'FitModel.fit2_pkg / fit3_pkg (referee for tolerance and tie margins)'
 RULE = ('paired runs through real Fitters: (a) filters passed in a permuted order with the photometry permuted alike, (b) the package written with its model rows permuted, '
         '(c) 2-D only: every flux and error multiplied by a constant over 8 decades (limit confidences untouched, flag-4 values shifted by log10 c), '
-        '(d) up to 6 interleaved fits of up to 3 sources on one Fitter compared with fresh-Fitter results, plus a deep before/after comparison of the Source passed in. '
+        '(d) up to 6 interleaved fits of up to 3 sources on one Fitter compared with fresh-Fitter results, plus a deep before/after comparison of the Source passed in; (e) 3-D: the same history on a Fitter made with remove_resolved=True against fresh such Fitters. '
         'non-trivial = >= 2 bands permuted non-identically or >= 2 models; distinct = distinct inputs.')
 EXHAUSTIVE = {'quick': False, 'thorough': False}
 ASSUMPTIONS = ['"unchanged" is judged within float rounding: relative 1e-9 x condition number on A_V/scale, 1e-7 on chi2',
                '3-D: when the two smallest grid chi2 of a model are within 1e-6 the chosen distance may legitimately flip; then only chi2 is compared',
-               'history independence / non-mutation cannot be exhibited by the Gallina model (pure by construction); they are decided by these runs alone']
+               'remove_resolved itself is not modelled (it acts on the already distance-interpolated fluxes); only the history independence of Fitters made with it is judged', 'history independence / non-mutation cannot be exhibited by the Gallina model (pure by construction); they are decided by these runs alone']
 
 
 def _scale_src(src, c):
@@ -104,6 +104,12 @@ def impl(case):
             hist.append(fitcase.info_out(fitter.fit(objs[i])))
         out['fresh'], out['hist'] = fresh, hist
         out['hist_mutated'] = [_state(o) != st for o, st in zip(objs, states)]
+        # (e) the same history on a Fitter made with remove_resolved=True (the option is not modelled; only history independence is judged)
+        if case['mode'] == '3d':
+            fr = fitcase.make_fitter(d, case, remove_resolved=True)
+            out['rr_hist'] = [fitcase.info_out(fr.fit(fitcase.make_source(srcs[i]))) for i in case['history']]
+            out['rr_fresh'] = [fitcase.info_out(fitcase.make_fitter(d, case, remove_resolved=True).fit(fitcase.make_source(s))) for s in srcs]
+            out['rr_differs'] = any(a['chi2'] != b['chi2'] for a, b in zip(out['rr_fresh'], fresh))
     # (b) models permuted: a second package
     with tempfile.TemporaryDirectory() as d:
         fitcase.write_pkg(d, case, order=case['model_perm'])
@@ -189,12 +195,19 @@ def judge(case, im, mo):
     fail += _cmp(base, im['modelperm'], rt, 'models', loose3d=loose)
     if 'scaled' in im:
         fail += _cmp(base, im['scaled'], max(rt, 1e-9), 'brightness', shift=-0.5 * math.log10(case['const']))
+    def same(a, b):
+        return len(a) == len(b) and all((x == y) or (isinstance(x, float) and isinstance(y, float) and x != x and y != y) for x, y in zip(a, b))
     for k, i in enumerate(case['history']):
         h, f = im['hist'][k], im['fresh'][i]
-        def same(a, b):
-            return len(a) == len(b) and all((x == y) or (isinstance(x, float) and isinstance(y, float) and x != x and y != y) for x, y in zip(a, b))
         if any(not same(h[key], f[key]) for key in ('av', 'sc', 'chi2', 'model_name', 'model_id')):
             fail.append('history: fit %d of the sequence (source %d) differs from the fresh-fitter result' % (k, i))
             break
+    if 'rr_hist' in im:
+        tags.append('remove_resolved-active=%s' % im['rr_differs'])
+        for k, i in enumerate(case['history']):
+            h, f = im['rr_hist'][k], im['rr_fresh'][i]
+            if any(not same(h[key], f[key]) for key in ('av', 'sc', 'chi2', 'model_name', 'model_id')):
+                fail.append('history: with remove_resolved=True, fit %d of the sequence (source %d) differs from the fresh-fitter result' % (k, i))
+                break
     nontrivial = case['band_perm'] != sorted(case['band_perm']) or len(case['names']) >= 2
     return dict(disagree=disagree[:3], fail=fail[:4], nontrivial=nontrivial, tags=tags)
